@@ -4,7 +4,7 @@ From Coq Require Import List NArith ZArith Bool Arith Lia.
 From Muscle Require Import Gen.Consts Refl.Base Refl.BaseProofs Refl.Tree Refl.TreeProofs Refl.Matcher Refl.MatcherProofs
      Refl.Traverse Refl.TraverseFold Refl.TraverseSpec Refl.Session Refl.Server Refl.ServerProofs Refl.Mirror Refl.MirrorBase
      Refl.MirrorServer Refl.MirrorNotify Refl.MirrorSem Refl.MirrorSteps Refl.MirrorHandlers Refl.MirrorSubscribe Refl.MirrorFetch
-     Refl.MirrorSubJ Refl.MirrorFrame Refl.MirrorGet.
+     Refl.MirrorSubJ Refl.MirrorFrame Refl.MirrorGet Refl.MirrorQuiet.
 Import ListNotations.
 
 Section Cmd.
@@ -69,6 +69,11 @@ Fixpoint cmd_subs_ok (c : cmd) : Prop :=
   | CBatch l => (fix all (l : list cmd) : Prop := match l with [] => True | c' :: r => cmd_subs_ok c' /\ all r end) l
   | _ => True
   end.
+
+(* none of o's subscription paths reaches below the session node of b (both attached) *)
+Definition hidden_from (sv : server) (o b : sid) : Prop :=
+  exists so sb, get_session sv o = Some so /\ get_session sv b = Some sb /\
+                hidden_data (all_entries (s_subs so)) (session_dir sb).
 
 Variable fx : fixes.
 Hypothesis guard_on : fx_guard fx = true.
@@ -142,8 +147,17 @@ Proof.
   rewrite (Hc H1), (IH H2). reflexivity.
 Qed.
 
+Lemma hidden_from_tracks : forall sv sv' b f, b <> o -> tracks sv sv' b f -> hidden_from sv o b -> hidden_from sv' o b.
+Proof.
+  intros sv sv' b f Hne Htr [so [sb [H1 [H2 H3]]]].
+  destruct (Htr o so H1) as [so' [Ha [_ Hb]]]. destruct (Htr b sb H2) as [sb' [Hc [Hd _]]].
+  apply N.eqb_neq in Hne. rewrite Hne in Hb.
+  exists so', sb'. split; [auto|split; [auto|]]. now rewrite Hb, Hd.
+Qed.
+
+(* quiet flags are allowed on commands of a session the observer cannot see (quiet_frame), otherwise cmd_loud_for *)
 Lemma handle_J : forall c nest sv b B, small (B + cmd_budget c) ->
-  cmd_loud_for (N.eqb b o) c = true -> nest + cmd_depth c <= max_batch_nest ->
+  (cmd_loud_for (N.eqb b o) c = true \/ (b <> o /\ hidden_from sv o b)) -> nest + cmd_depth c <= max_batch_nest ->
   (b = o -> cmd_nounsub c = true /\ cmd_subs_ok c /\
             forall ss, get_session sv o = Some ss -> s_pending ss = None /\ cmd_covered (s_subs ss) c) ->
   inv B sv -> pend_ok sv -> J sv o ->
@@ -153,14 +167,29 @@ Proof.
     cbn [handle cmd_budget cmd_loud_for cmd_nounsub cmd_subs_ok cmd_covered] in *;
     destruct (get_session sv b) as [bs|] eqn:Hbs; try (split; assumption); try (rewrite Nat.add_0_r in HB).
   - (* SETDATA *)
-    apply (set_data_items_J mir B i sv b f o); auto. now apply negb_true_iff in Hloud.
+    destruct (flag_set f c_SETDATANODE_FLAG_QUIET) eqn:Efl.
+    + (* quiet: only where the observer cannot see *)
+      destruct Hloud as [Hloud|[Hne [so [sb [Hso [Hsb Hhid]]]]]]; [cbn in Hloud; discriminate|].
+      assert (sb = bs) by congruence. subst sb.
+      destruct (set_data_items_frame i sv b f Hpo) as [Hpo' _].
+      split; [|exact Hpo'].
+      destruct (set_data_items_quiet i sv b f (session_dir bs) Efl) as [Hr Hd]; [intros x Hx; congruence|].
+      apply (quiet_frame mir B sv _ o so (session_dir bs)); auto.
+    + apply (set_data_items_J mir B i sv b f o); auto.
   - (* REMOVEDATA *)
-    apply negb_true_iff in Hloud. subst q.
-    apply (do_remove_data_J fx mir B [] sv bs k o); auto.
-    pose proof (find_session_some _ _ _ Hbs) as [_ Hid]. rewrite Hid. exact Hbs.
+    destruct q.
+    + destruct Hloud as [Hloud|[Hne [so [sb [Hso [Hsb Hhid]]]]]]; [cbn in Hloud; discriminate|].
+      assert (sb = bs) by congruence. subst sb.
+      destruct (do_remove_data_frame fx sv bs k true Hpo) as [Hpo' _].
+      split; [|exact Hpo'].
+      destruct (do_remove_data_quiet fx sv bs k) as [Hr Hd].
+      apply (quiet_frame mir B sv _ o so (session_dir bs)); auto.
+    + apply (do_remove_data_J fx mir B [] sv bs k o); auto.
+      pose proof (find_session_some _ _ _ Hbs) as [_ Hid]. rewrite Hid. exact Hbs.
   - (* SETPARAMETERS with SUBSCRIBE: fields *)
     destruct (N.eq_dec b o) as [E|E].
-    + subst b. rewrite N.eqb_refl, orb_false_r in Hloud. apply negb_true_iff in Hloud. subst q.
+    + subst b. destruct Hloud as [Hloud|[Hne _]]; [|congruence].
+      rewrite N.eqb_refl, orb_false_r in Hloud. apply negb_true_iff in Hloud. subst q.
       destruct (Hown eq_refl) as [_ [[Hnd Hne] _]].
       apply (subscribe_cmd_J fx guard_on overlap_on push_on mir o B sv k); eauto.
     + destruct (subscribe_fold_other k B sv b E HB I Hpo) as [H1 [H2 [H3 [H4 H5]]]].
@@ -205,7 +234,8 @@ Proof.
     assert (Hlt : Nat.ltb nest max_batch_nest = true) by (apply Nat.ltb_lt; lia). rewrite Hlt.
     clear Hbs bs Hlt. revert sv B HB Hloud Hdep Hown I Hpo HJ.
     induction H as [|c l Hc Hl IHl]; intros sv B HB Hloud Hdep Hown I Hpo HJ; [split; assumption|].
-    cbn [forallb] in Hloud. apply andb_true_iff in Hloud as [Hl1 Hl2].
+    assert (Hl1 : cmd_loud_for (N.eqb b o) c = true \/ (b <> o /\ hidden_from sv o b)).
+    { destruct Hloud as [Hloud|Hh]; [left|now right]. cbn [forallb] in Hloud. now apply andb_true_iff in Hloud as [Hl1 _]. }
     assert (Hown1 : b = o -> cmd_nounsub c = true /\ cmd_subs_ok c /\
               forall ss, get_session sv o = Some ss -> s_pending ss = None /\ cmd_covered (s_subs ss) c).
     { intros E. destruct (Hown E) as [Hp [[Hs _] Hcv]]. cbn [forallb] in Hp. apply andb_true_iff in Hp as [Hp _].
@@ -220,6 +250,12 @@ Proof.
     assert (Hpo2 : pend_ok sv1) by (now apply pend_ok_push_all).
     apply (IHl sv1 (B + cmd_budget c)); auto.
     + now rewrite <- Nat.add_assoc.
+    + destruct Hloud as [Hloud|[Hne Hh]]; [left|right; split; [auto|]].
+      * cbn [forallb] in Hloud. now apply andb_true_iff in Hloud as [_ Hl2].
+      * destruct (handle_track fx c (S nest) sv b Hpo) as [_ Htr]; [lia|].
+        apply (hidden_from_tracks (handle fx (S nest) sv b c) sv1 b (fun m => m) Hne).
+        -- apply tracks_sess. apply same_core_sess. apply push_all_core.
+        -- now apply (hidden_from_tracks sv _ b _ Hne Htr).
     + lia.
     + intros E. destruct (Hown E) as [Hp [[_ Hs] Hcv]]. cbn [forallb] in Hp. apply andb_true_iff in Hp as [_ Hp].
       split; [auto|split; [auto|]]. intros ss1 Hss1.
